@@ -2625,6 +2625,17 @@ func tryFunc(f func()) (ret interface{}) {
 // that may throw exceptions (such as Object.Get, Object.String, Object.ToInteger, Object.Export, Runtime.Get, Runtime.InstanceOf, etc.)
 // outside the Runtime execution context (i.e. when calling directly from Go, not from a JS function implemented in Go).
 func (r *Runtime) Try(f func()) *Exception {
+	defer func() {
+		if x := recover(); x != nil {
+			// an uncatchable (interrupt, stack overflow) passes through: if this is the outermost
+			// call do what RunProgram and Callable do, so that the flag and the pending jobs of
+			// the aborted run do not leak into the next call
+			if len(r.vm.callStack) == 0 && asUncatchableException(x) != nil {
+				r.leaveAbrupt()
+			}
+			panic(x)
+		}
+	}()
 	return r.vm.try(f)
 }
 
